@@ -74,8 +74,16 @@ def case_failures(seed_, with_region):
         # a pixel whose value is exactly 0 although it is far from the background
         im[rnd.randrange(shape[0]), rnd.randrange(shape[1])] = 0.0
     rms = np.full(shape, rnd.choice([1.0, 0.5]))
+    if rnd.random() < 0.4:
+        # noise that varies across the image (mosaic seam): peak flux and peak S/N need not coincide
+        rms = np.array([[rnd.choice([0.5, 1.0, 2.0]) for _ in range(shape[1])] for _ in range(shape[0])])
     flood = rnd.choice([3.0, 4.0, 4.5])
     seedc = flood + rnd.choice([0.0, 0.5, 1.0, 2.0])
+    if rnd.random() < 0.3:
+        # pixels a hair (1e-9 relative) on either side of the thresholds: they must be decided in double precision
+        for thr in (flood, seedc):
+            r_, c_ = rnd.randrange(shape[0]), rnd.randrange(shape[1])
+            im[r_, c_] = bkg[r_, c_] + thr * rms[r_, c_] * (1 + rnd.choice([-1e-9, 1e-9]))
     out = []
     ref, snr = reference_islands(im, bkg, rms, seedc, flood)
     region, helper, w = None, None, None
@@ -134,6 +142,48 @@ def case_failures(seed_, with_region):
     return out[:4]
 
 
+def history_failures(seed_):
+    """the same Region object is queried, then shrunk (without / intersect), then used again"""
+    rnd = random.Random(seed_)
+    shape = (rnd.randint(6, 12), rnd.randint(6, 12))
+    im = make_image(rnd, shape)
+    bkg, rms = np.zeros(shape), np.ones(shape)
+    flood, seedc = 4.0, 5.0
+    w = WCS(naxis=2)
+    w.wcs.crpix = [shape[1] / 2.0, shape[0] / 2.0]
+    w.wcs.cdelt = [-1.0, 1.0]
+    w.wcs.crval = [rnd.uniform(10, 350), rnd.uniform(-60, 60)]
+    w.wcs.ctype = ["RA---SIN", "DEC--SIN"]
+    region = Region(maxdepth=8)
+    ra, dec = w.wcs_pix2world(shape[1] / 2.0, shape[0] / 2.0, 0)
+    region.add_circles(np.radians(float(ra)), np.radians(float(dec)), np.radians(20.0))
+    helper = Helper(w)
+    sf.find_islands(im, bkg, rms, seed_clip=seedc, flood_clip=flood, region=region, wcs=helper)     # fills any cache
+    hole = Region(maxdepth=8)
+    ra2, dec2 = w.wcs_pix2world(rnd.uniform(0, shape[1]), rnd.uniform(0, shape[0]), 0)
+    hole.add_circles(np.radians(float(ra2)), np.radians(float(dec2)), np.radians(rnd.uniform(2.0, 5.0)))
+    if rnd.random() < 0.5:
+        region.without(hole)
+    else:
+        region.intersect(hole)
+    ref, snr = reference_islands(im, bkg, rms, seedc, flood)
+    keep = []
+    for comp in ref:
+        pts = np.array(sorted(comp))
+        ras, decs = w.wcs_pix2world(pts[:, 1], pts[:, 0], 0)
+        fresh = Region(maxdepth=8)
+        fresh.pixeldict = {d: set(v) for d, v in region.pixeldict.items()}
+        if fresh.sky_within(ras, decs, degin=True).any():
+            keep.append(comp)
+    isl = sf.find_islands(im, bkg, rms, seed_clip=seedc, flood_clip=flood, region=region, wcs=helper)
+    got = set(island_pixels(i) for i in isl)
+    if got != set(keep):
+        return [("region_answers_follow_region_changes",
+                 "after the region was changed, %d islands are returned where %d have a pixel inside the new region" % (
+                     len(got), len(keep)))]
+    return []
+
+
 def crosscheck(p, with_region=False):
     n = 150 if p.get("tier") != "thorough" else 3000
     s0 = p.get("seed", 0) * 100000
@@ -145,14 +195,26 @@ def crosscheck(p, with_region=False):
                 seen.add(lab)
                 failures.append({"label": lab, "input": {"seed": s0 + i, "with_region": with_region}, "what": what,
                                  "replay_func": "replay_islands", "replay_payload": {"cases": [[s0 + i, with_region]]}})
+    if with_region:
+        for i in range(max(10, n // 6)):
+            evals += 1
+            for lab, what in history_failures(s0 + i):
+                if lab not in seen:
+                    seen.add(lab)
+                    failures.append({"label": lab, "input": {"history_seed": s0 + i}, "what": what,
+                                     "replay_func": "replay_islands", "replay_payload": {"histories": [s0 + i]}})
     return {"evaluations": evals, "failures": failures,
             "rule": "random small images (1x1..12x12, NaNs, ties at thresholds, diagonal/L-shaped/nested blobs, nonzero bkg, exact "
                     "zeros) against a pure-python 8-connected flood fill%s" % (" + WCS/circle region filter" if with_region else "")}
 
 
 def replay_islands(p):
-    cases = p.get("cases") or [[s, r] for s in range(400) for r in (False,)]
+    cases = p.get("cases") or ([] if p.get("histories") else [[s, r] for s in range(400) for r in (False,)])
     bad = []
+    for s in p.get("histories") or []:
+        fl = history_failures(s)
+        if fl:
+            bad.append({"seed": s, "with_region": "history", "what": fl})
     for s, r in cases:
         fl = case_failures(s, r)
         if fl:
